@@ -822,3 +822,8 @@ package mail
 //@ at mail.parseEMLMultipart mail.Part.SetContent#1 before assert[C10:stored-as-read] arg1 == str(multiPartData)
 //@ at mail.parseEMLMultipart mail.Part.SetContent#2 before assert[C10:stored-as-read] arg1 == str(multiPartData)
 //@ at mail.parseEMLMultipart mail.Part.SetContent#3 before assert[C10:stored-as-read] arg1 == str(multiPartData)
+
+// C04 (continued): an 8bit message is refused locally when the server did not advertise 8BITMIME - no MAIL is sent
+//@ ghost field has8bit bool
+//@ at mail.Client.sendSingleMsg smtp.Client.Extension#2 after ghost[C04:g] world.has8bit = r0
+//@ at mail.Client.sendSingleMsg smtp.Client.Mail#1 before assert[C04:no-8bit-without-8bitmime] message.encoding == "8bit" ==> world.has8bit
